@@ -126,7 +126,7 @@ class Gen:
         if c < 0.74:
             return ["re", r.choice(["match", "search"]), hx(r.choice(["x", "X", "", "y"])), r.choice(["-", "i"])]
         if c < 0.8:
-            return ["test", r.choice(["isnone", "isstr", "true", "false"])]
+            return ["test", r.choice(["isnone", "isstr", "true", "false", "twicelen", "twicelen"])]
         if c < 0.86:
             return ["test", "streq", "s:" + hx("x")]
         if c < 0.92:
